@@ -1,6 +1,9 @@
 """C06 — registries consult exactly their current base chain, in resolution order
 (DESIGN.md section 5, C06)."""
+import os
+
 from .. import common as C
+from ..translate import regchain as TR
 from . import regcommon as RC
 
 ID = "C06"
@@ -15,7 +18,13 @@ THEOREMS = [
     "C06_lookup_uses_current_chain", "C06_lookupAll_uses_current_chain", "C06_subscriptions_uses_current_chain",
     "C06_change_empties_caches_below", "C06_answers_after_change",
     "C06_push_change_empties_caches", "C06_verifying_verify_empties_cache",
+    "C06_generated_refresh_loop_exits_first_round", "C06_generated_refresh_ro_eq_model",
+    "C06_generated_lookup_changed_eq_model", "C06_generated_changed_eq_model",
+    "C06_generated_changed_eq_after_bump", "C06_generated_setBases_eq_model",
+    "C06_generated_verify_eq_model", "C06_generated_init_eq_model",
 ]
+SOURCE = os.path.join(C.REPO, "src", "zope", "interface", "adapter.py")
+GEN_FILE = os.path.join(C.COQ, "Gen", "RegChainKernel.v")
 SHARD = 10
 RULE = ("registry DAGs of 3-6 registries of one flavour (chains of 3-5 with one or two alternative tops, diamonds, "
         "diamonds with a tail, redundant-edge DAGs site(local, glob) with local(glob) whose indirect path is cut before "
@@ -25,7 +34,9 @@ RULE = ("registry DAGs of 3-6 registries of one flavour (chains of 3-5 with one 
         "every round = one change (re-base at a rotating level incl. tops, middles and the bottom, or register / "
         "unregister / subscribe / unsubscribe in a random member) followed by a sweep of lookup / lookup1 / lookupAll / "
         "names / subscriptions / queryAdapter / queryMultiAdapter / subscribers from every member with the SAME keys "
-        "(warm caches); plus random mixed histories (shared generator, re-basing weight raised, no rebuild) and a "
+        "(warm caches); a rebuild stream (the same chains with rebuild() of registries that have sub-registries, "
+        "followed by re-basing / changing the rebuilt registry; one provided interface per case so that replay order "
+        "cannot matter); plus random mixed histories (shared generator, re-basing weight raised) and a "
         "Components stream (chains/diamonds of zope.interface.registry.Components, __bases__ reassigned at every "
         "level, registerAdapter/registerUtility/registerSubscriptionAdapter, queryAdapter/queryMultiAdapter/"
         "queryUtility/getUtilitiesFor/subscribers; judged by the Spec oracle only).  A case is non-trivial when some "
@@ -38,14 +49,44 @@ TRUSTED_BASE = [
     "(C3-ness of Ro.ro is property C03's subject)",
     "Tie/C06.check_spec oracle: replays net registrations per registry with Model/Adapter.v's storage functions "
     "(bookkeeping = property C09) and Model.Ro.ro on the current base graph",
+    "harness/translate/regchain.py (fail-closed ast translator of _setBases/_refresh_ro/changed/_verify/__init__/"
+    "_addSubregistry/_removeSubregistry and the lookup objects' changed()) and its statement vocabulary "
+    "Model/RegPrim.v: attributes of a registry or of its lookup object = fields of its record, _v_subregistries = "
+    "insertion-ordered key list, ro.ro(self) = fresh_ro, method resolution computed from the class skeleton the "
+    "translator checks, single-threaded execution (the re-check loop of _refresh_ro is proved to exit in its first "
+    "round); the C twins of LookupBase/VerifyingBase.changed/_verify are tied by the correspondence only",
 ]
 ASSUMPTIONS = [
     "registry graphs are acyclic: __bases__ only ever names registries created earlier (the real code recurses "
     "forever on a cycle); one flavour per graph",
-    "rebuild() is not part of the histories: it re-runs __init__, which forgets _v_subregistries of a push registry "
-    "(real code; reported as a side finding)",
+    "rebuild() replays registrations in storage order (nested dictionaries in the code, flat insertion order in "
+    "Model/Adapter.v): histories with rebuild() use one provided interface per case, so no lookup depends on that order",
     "the specification graph is static during a history (C02/C05's subject)",
 ]
+
+def regenerate(run):
+    """Re-translate the chain logic of adapter.py into coq/Gen/RegChainKernel.v (fail closed).  On abort a
+    stub without a kernel is written: Proofs/RegChainKernel.v and Properties/C06.v then do not build (every
+    theorem is reported unchecked) while the Tie (model + Spec oracle) still runs and looks for a concrete
+    failing input."""
+    errs = []
+    try:
+        text = TR.translate_file(SOURCE)
+    except TR.TranslationError as e:
+        text = TR.stub(SOURCE, str(e))
+        errs.append("harness/translate/regchain.py refused %s: %s (Gen/RegChainKernel.v has no kernel; the "
+                    "C06 theorems are NOT about the current source)" % (SOURCE, e))
+    except (OSError, SyntaxError) as e:
+        text = TR.stub(SOURCE, repr(e))
+        errs.append("harness/translate/regchain.py cannot read %s: %r" % (SOURCE, e))
+    with C.CoqLock():
+        C.write_if_changed(GEN_FILE, text)
+    run.coverage["translated_kernel"] = {"source": SOURCE, "generated": "coq/Gen/RegChainKernel.v", "ok": not errs}
+    ok, out = C.coq_make(["Tie/C06.vo"])
+    if not ok:
+        errs.append("Tie/C06.vo does not build:\n" + out[-2000:])
+    return errs
+
 
 QUERY = ("lookup", "lookup1", "lookupAll", "names", "subscriptions", "queryAdapter", "adapter_hook",
          "queryMultiAdapter", "subscribers")
@@ -109,7 +150,11 @@ def _sweep(rng, regs, akeys, skeys, rel, look_pool, ifaces, nobj, frac=1.0):
     return ops
 
 
-def gen_chain_case(rng, fl):
+def gen_chain_case(rng, fl, rebuild=False):
+    """[rebuild]: rebuild() calls in the middle of the chains.  rebuild() replays the registrations in the
+    storage's iteration order (nested dictionaries in the code, flat insertion order in Model/Adapter.v), which
+    may reorder the extendors of a provided interface: such cases use ONE provided interface for all
+    registrations, so that no lookup has two applicable provided interfaces to choose between."""
     ni = rng.choice([3, 4, 5])
     nc = rng.choice([0, 2, 2])
     world, ifaces, classes = RC.gen_world(rng, n_ifaces=ni, n_classes=nc, n_objects=3 if nc else 0)
@@ -125,10 +170,11 @@ def gen_chain_case(rng, fl):
 
     # registration keys (possibly with None = Interface) and the lookup keys derived from them
     reg_keys, look_keys = [], []
+    p0 = rng.choice(ifaces)
     for _ in range(rng.choice([2, 3])):
         ar = rng.choice([0, 1, 1, 2])
         req = RC.gen_req(rng, list(ifaces) + [0], ar)
-        p = rng.choice(ifaces)
+        p = p0 if rebuild else rng.choice(ifaces)
         nm = rng.choice([0, 0, 1])
         reg_keys.append((req, p, nm))
         lp = rng.choice([x for x in rel.ancestors(p) if x in ifaces or x == 0])
@@ -137,7 +183,7 @@ def gen_chain_case(rng, fl):
     for _ in range(rng.choice([1, 2])):
         ar = rng.choice([0, 1, 1, 2])
         req = RC.gen_req(rng, list(ifaces) + [0], ar)
-        p = rng.choice(ifaces) if rng.random() > 0.25 else None
+        p = (p0 if rebuild else rng.choice(ifaces)) if rng.random() > 0.25 else None
         sub_keys.append((req, p))
         lp = None if p is None else rng.choice([x for x in rel.ancestors(p) if x in ifaces or x == 0])
         slook_keys.append(([desc(x) for x in req], lp))
@@ -225,6 +271,23 @@ def gen_chain_case(rng, fl):
             ops += leaf_sweep if rng.random() < 0.4 else fixed_sweep
     for _ in range(rng.choice([3, 4, 5, 6])):
         what = rng.random()
+        if rebuild and rng.random() < 0.6:
+            # rebuild a registry (preferably one with registries based on it), then change IT or go on
+            withsubs = [x for x in range(n) if any(x in bs for bs in cur)]
+            m = rng.choice(withsubs) if withsubs and rng.random() < 0.8 else rng.randrange(n)
+            ops.append(["rebuild", m])
+            if rng.random() < 0.5:
+                ops += leaf_sweep
+            if rng.random() < 0.6:
+                if m >= 1 and rng.random() < 0.5:
+                    cand = list(range(m))
+                    rng.shuffle(cand)
+                    ops.append(["setregbases", m, sorted(cand[: rng.choice([0, 1, 1])], reverse=True)])
+                    cur[m] = ops[-1][2]
+                else:
+                    ops.append(mutation(m))
+                ops += fixed_sweep
+                continue
         if what < 0.6:
             r = level
             level = level + 1 if level + 1 < n else 1
@@ -347,11 +410,13 @@ def generate(run, tier):
     rng = run.rng("gen")
     big = tier != "quick"
     cases = []
-    for i in range(72 if not big else 560):
+    for i in range(48 if not big else 500):
         cases.append(gen_chain_case(rng, "push" if i % 2 == 0 else "verifying"))
-    for _ in range(48 if not big else 380):
+    for i in range(20 if not big else 200):
+        cases.append(gen_chain_case(rng, "push" if i % 2 == 0 else "verifying", rebuild=True))
+    for _ in range(36 if not big else 380):
         cases.append(gen_random_case(rng))
-    for _ in range(24 if not big else 200):
+    for _ in range(20 if not big else 200):
         cases.append(gen_comp_case(rng))
     return cases
 
@@ -482,12 +547,14 @@ def replay_text(case, obs, mode):
 
 
 TECHNIQUE = ("Coq proof by induction over registry histories of a Gallina transcription of _setBases / _refresh_ro / "
-             "changed / _verify (invariants: sub-registry lists mirror __bases__; generation snapshots never run ahead "
+             "changed / _verify, itself proved equal to a kernel regenerated from the source text by a fail-closed "
+             "translator on every run (invariants: sub-registry lists mirror __bases__; generation snapshots never run ahead "
              "and a matching snapshot implies a current order; frame, totality and membership lemmas for the C3 "
              "resolver); vm_compute correspondence with both implementations and an independent replay oracle in Coq")
-LEVEL_TEXT = ("Machine-checked theorems (Properties/C06.v, 12 theorems, closed under the global context): for every "
+LEVEL_TEXT = ("Machine-checked theorems (Properties/C06.v, 20 theorems, closed under the global context; 8 of them state "
+              "that the functions regenerated from adapter.py's current text equal the model's for all states): for every "
               "history of registry creation, __bases__ reassignment at any level, registrations and subscriptions in any "
-              "member and lookups, over any specification world and any factory behaviour, (push) the cached resolution "
+              "member, rebuild() and lookups, over any specification world and any factory behaviour, (push) the cached resolution "
               "order of every registry equals the C3 order of the current base graph, (verifying) it does once _verify "
               "has run, the order lists exactly the registries reachable through the current __bases__, and lookup / "
               "lookupAll / subscriptions answer with the uncached computation over that chain on every cache miss and "
@@ -498,4 +565,4 @@ LEVEL_TEXT = ("Machine-checked theorems (Properties/C06.v, 12 theorems, closed u
 LEVEL_NOTE = ("Trusted: Coq kernel/vm_compute; the hand-written model (validated by the correspondence); C3-ness of "
               "Model.Ro.ro is C03's theorem, not restated here; warm-cache transparency in general (entries cached "
               "before an unrelated change) is C05's subject - C06 proves cache emptiness after changes above and "
-              "correctness on misses.  rebuild() and registry cycles are outside the quantifier (documented).")
+              "correctness on misses.  Registry cycles and mixed flavours are outside the quantifier (documented).")
